@@ -330,7 +330,10 @@ class Session:
         if self.kind in (K_SEND_ALL, K_SEND_ITER) and not wl:
             # the F6 repair re-runs _maybe_pause_protocol() through set_write_buffer_limits(0) right after writelines():
             # same effect as a pausing writelines().  Read from the AST (fail closed), not from the text.
-            wl = int(source_params()["stream_iter_rechecks"])
+            try:
+                wl = int(source_params()["stream_iter_rechecks"])
+            except Exception:     # reported through params(); keep generating cases so that the failing input is found
+                wl = 0
         if self.kind in (K_DGRAM_EP, K_DGRAM_LISTENER):
             wl = 1      # no writelines on datagram transports
         return [high, low, wl]
@@ -564,7 +567,11 @@ def shrink(inp):
 
 # ------------------------------------------------------------------------------------------------ params from the source
 
-def _find_func(path, cls, func):
+class _Outside(Exception):
+    """the source is outside the fragment the `ast` reader understands: the behavioural probes decide alone"""
+
+
+def _find_class(path, cls):
     import ast
 
     from common import runner
@@ -576,74 +583,263 @@ def _find_func(path, cls, func):
         raise runner.TranslateError(f"{path}: {exc}")
     for node in tree.body:
         if isinstance(node, ast.ClassDef) and node.name == cls:
-            for sub in node.body:
-                if isinstance(sub, (ast.FunctionDef, ast.AsyncFunctionDef)) and sub.name == func:
-                    return sub
-    raise runner.TranslateError(f"{path}: {cls}.{func} not found")
+            return node
+    raise _Outside(f"{path}: class {cls} not found")
 
 
-def _transport_calls(fn):
-    """(method name, args) of every call on the asyncio transport (`transport.<m>(..)` / `self.__transport.<m>(..)`),
-    in source order"""
+def _method(cnode, name):
     import ast
 
-    out = []
+    for sub in cnode.body:
+        if isinstance(sub, (ast.FunctionDef, ast.AsyncFunctionDef)) and sub.name == name:
+            return sub
+    return None
+
+
+def _transport_calls(cnode, fn, depth=1):
+    """(method, args, keywords) of every call on the asyncio transport made by `fn`, in source order: directly
+    (`transport.m(..)`, `self.__transport.m(..)`), through a local alias of it, or -- one level -- inside a private helper
+    of the same class called as `self.__helper(..)` (its calls are inlined at the call site)."""
+    import ast
+
+    aliases = {"transport"} if any(a.arg == "transport" for a in fn.args.args + fn.args.kwonlyargs) else set()
+
+    def is_transport_attr(v):
+        return isinstance(v, ast.Attribute) and isinstance(v.value, ast.Name) and v.value.id == "self" \
+            and v.attr in ("__transport", "_transport")
+
     for node in ast.walk(fn):
-        if isinstance(node, ast.Call) and isinstance(node.func, ast.Attribute):
-            v = node.func.value
-            on_transport = (isinstance(v, ast.Name) and v.id == "transport") or (
-                isinstance(v, ast.Attribute) and isinstance(v.value, ast.Name) and v.value.id == "self"
-                and v.attr in ("__transport", "_transport"))
-            if on_transport:
-                out.append((node.lineno, node.col_offset, node.func.attr, node.args, node.keywords))
-    return [(m, a, k) for _l, _c, m, a, k in sorted(out, key=lambda x: (x[0], x[1]))]
+        if isinstance(node, ast.Assign) and len(node.targets) == 1 and isinstance(node.targets[0], ast.Name) \
+                and is_transport_attr(node.value):
+            aliases.add(node.targets[0].id)
+    out = []
+    calls = sorted((n for n in ast.walk(fn) if isinstance(n, ast.Call) and isinstance(n.func, ast.Attribute)),
+                   key=lambda n: (n.lineno, n.col_offset))
+    for node in calls:
+        v = node.func.value
+        if is_transport_attr(v) or (isinstance(v, ast.Name) and v.id in aliases):
+            out.append((node.func.attr, node.args, node.keywords))
+        elif isinstance(v, ast.Name) and v.id == "self" and node.func.attr.startswith("_") and depth > 0:
+            helper = _method(cnode, node.func.attr)
+            if helper is not None and helper is not fn:
+                out += _transport_calls(cnode, helper, depth - 1)
+    return out
 
 
-def _limits_zero(path, cls, func):
-    """True iff the function calls set_write_buffer_limits(0) on the transport; fail closed on any other argument shape"""
+def _is_limits_zero(args, kws):
     import ast
 
+    vals = list(args) + [k.value for k in kws if k.arg in ("high", None)]
+    return len(vals) == 1 and len(kws) <= 1 and isinstance(vals[0], ast.Constant) and vals[0].value == 0
+
+
+def ast_params():
+    """the facts as far as the `ast` reader can see them; _Outside when a method is outside its fragment"""
+    out = {}
+    st = _find_class(_ST, "AsyncioTransportStreamSocketAdapter")
+
+    def calls_of(cnode, name):
+        fn = _method(cnode, name)
+        if fn is None:
+            raise _Outside(f"{cnode.name}.{name} not found")
+        return _transport_calls(cnode, fn)
+
+    def limits_in_init(cnode):
+        found = False
+        for m, a, k in calls_of(cnode, "__init__"):
+            if m == "set_write_buffer_limits":
+                if not _is_limits_zero(a, k):
+                    raise _Outside(f"{cnode.name}.__init__: set_write_buffer_limits with other arguments")
+                found = True
+        return found
+
+    out["stream_limits_zero"] = limits_in_init(st)
+    names = [m for m, _a, _k in calls_of(st, "send_all")]
+    if names != ["write"]:
+        raise _Outside(f"send_all: transport calls {names}")
+    seq = calls_of(st, "send_all_from_iterable")
+    names = [m for m, _a, _k in seq]
+    if names == ["writelines"]:
+        out["stream_iter_rechecks"] = False
+    elif names == ["writelines", "set_write_buffer_limits"] and _is_limits_zero(seq[1][1], seq[1][2]):
+        out["stream_iter_rechecks"] = True
+    else:
+        raise _Outside(f"send_all_from_iterable: transport calls {names}")
+    de = _find_class(_DE, "DatagramEndpoint")
+    dl = _find_class(_DL, "DatagramListenerSocketAdapter")
+    for cnode, f in ((de, "sendto"), (dl, "send_to")):
+        names = [m for m, _a, _k in calls_of(cnode, f)]
+        if names != ["sendto"]:
+            raise _Outside(f"{cnode.name}.{f}: transport calls {names}")
+    out["dgram_endpoint_limits_zero"] = limits_in_init(de)
+    out["dgram_listener_limits_zero"] = limits_in_init(dl)
+    return out
+
+
+class _RecTransport:
+    """records what an adapter does to its asyncio transport (behavioural extraction of the facts)"""
+
+    def __init__(self, log, dgram=False):
+        self.log = log
+        self.sock = FakeSock(_socket.SOCK_DGRAM if dgram else _socket.SOCK_STREAM)
+
+    def get_extra_info(self, name, default=None):
+        return {"socket": self.sock}.get(name, default)
+
+    def set_write_buffer_limits(self, high=None, low=None):
+        self.log.append(("set_write_buffer_limits", high, low))
+
+    def get_write_buffer_limits(self):
+        return (0, 0)
+
+    def get_write_buffer_size(self):
+        return 0
+
+    def write(self, data):
+        self.log.append(("write", bytes(data)))
+
+    def writelines(self, chunks):
+        self.log.append(("writelines", [bytes(c) for c in chunks]))
+
+    def sendto(self, data, addr=None):
+        self.log.append(("sendto", bytes(data)))
+
+    def is_closing(self):
+        return False
+
+    def can_write_eof(self):
+        return True
+
+    def close(self):
+        pass
+
+    def abort(self):
+        pass
+
+
+def behavioural_params():
+    """the same facts decided by scripted probes on the real objects.  Fail closed on anything unexpected."""
     from common import runner
 
-    found = False
-    for m, args, kws in _transport_calls(_find_func(path, cls, func)):
-        if m == "set_write_buffer_limits":
-            if len(args) == 1 and not kws and isinstance(args[0], ast.Constant) and args[0].value == 0:
-                found = True
-            else:
-                raise runner.TranslateError(f"{cls}.{func}: set_write_buffer_limits called with unrecognised arguments")
-    return found
+    from easynetwork.lowlevel.api_async.backend._asyncio.backend import AsyncIOBackend
+    from easynetwork.lowlevel.api_async.backend._asyncio.datagram.endpoint import DatagramEndpoint
+    from easynetwork.lowlevel.api_async.backend._asyncio.datagram.listener import DatagramListenerSocketAdapter
+    from easynetwork.lowlevel.api_async.backend._asyncio.stream.socket import AsyncioTransportStreamSocketAdapter
+
+    def bad(msg):
+        raise runner.TranslateError("behavioural probe: " + msg)
+
+    class Proto:
+        def __init__(self, log):
+            self.log = log
+
+        async def _drain(self):
+            self.log.append(("drain",))
+
+        writer_drain = _drain_helper = _drain
+
+        def _get_close_waiter(self):
+            return asyncio.get_running_loop().create_future()
+
+    def limits_zero(log, who):
+        hits = [e for e in log if e[0] == "set_write_buffer_limits"]
+        if not hits:
+            return False
+        if any(e[1] != 0 for e in hits):
+            bad(f"{who}.__init__ sets write buffer limits {hits}")
+        return True
+
+    out = {}
+    with running() as loop:
+        backend = AsyncIOBackend()
+        log = []
+        adapter = AsyncioTransportStreamSocketAdapter(backend, _RecTransport(log), Proto(log))
+        out["stream_limits_zero"] = limits_zero(log, "stream adapter")
+        del log[:]
+        loop.run_until_complete(adapter.send_all(b"ab"))
+        if [e[0] for e in log] != ["write", "drain"] or log[0][1] != b"ab":
+            bad(f"send_all did {log}")
+        del log[:]
+        loop.run_until_complete(adapter.send_all_from_iterable([b"a", b"b"]))
+        names = [e[0] for e in log]
+        if names == ["writelines", "drain"]:
+            out["stream_iter_rechecks"] = False
+        elif names == ["writelines", "set_write_buffer_limits", "drain"] and log[1][1] == 0:
+            out["stream_iter_rechecks"] = True
+        else:
+            bad(f"send_all_from_iterable did {log}")
+        if b"".join(log[0][1]) != b"ab":
+            bad(f"send_all_from_iterable wrote {log[0]}")
+        adapter._AsyncioTransportStreamSocketAdapter__closing = True
+        log = []
+        ep = DatagramEndpoint(_RecTransport(log, True), Proto(log), recv_queue=asyncio.Queue(), exception_queue=asyncio.Queue())
+        out["dgram_endpoint_limits_zero"] = limits_zero(log, "datagram endpoint")
+        del log[:]
+        loop.run_until_complete(ep.sendto(b"ab", "/peer"))
+        if [e[0] for e in log] != ["sendto", "drain"]:
+            bad(f"DatagramEndpoint.sendto did {log}")
+        ep._DatagramEndpoint__transport.is_closing = lambda: True
+        log = []
+        li = DatagramListenerSocketAdapter(backend, _RecTransport(log, True), Proto(log))
+        out["dgram_listener_limits_zero"] = limits_zero(log, "datagram listener")
+        del log[:]
+        loop.run_until_complete(li.send_to(b"ab", "/peer"))
+        if [e[0] for e in log] != ["sendto", "drain"]:
+            bad(f"DatagramListenerSocketAdapter.send_to did {log}")
+        li._DatagramListenerSocketAdapter__transport.is_closing = lambda: True
+        # the interpreter: does writelines() of the real selector transport pause the protocol when data stays buffered?
+        paused = []
+
+        class P(asyncio.Protocol):
+            def pause_writing(self):
+                paused.append(1)
+
+        sock = FakeSock(_socket.SOCK_STREAM)
+        tr = loop._make_socket_transport(sock, P())
+        loop.call_soon(loop.stop)
+        loop.run_forever()
+        tr.set_write_buffer_limits(0)
+        tr.writelines([b"xyz"])          # the scripted kernel takes nothing
+        if tr.get_write_buffer_size() != 3:
+            bad("the real transport did not keep the bytes the kernel refused")
+        out["interp_writelines_pauses"] = bool(paused)
+        tr.abort()
+        loop.call_soon(loop.stop)
+        loop.run_forever()
+    return out
+
+
+_PARAMS = None
 
 
 def source_params():
+    """fact -> value, plus PROVENANCE[fact] in {"ast+behavioural", "behavioural"}.  The probes always decide; when the
+    `ast` reader understands the source it must agree (disagreement = fail closed)."""
+    global _PARAMS, PROVENANCE
     from common import runner
 
-    cls = "AsyncioTransportStreamSocketAdapter"
-    stream_zero = _limits_zero(_ST, cls, "__init__")
-    calls = [m for m, _a, _k in _transport_calls(_find_func(_ST, cls, "send_all"))]
-    if calls != ["write"]:
-        raise runner.TranslateError(f"{cls}.send_all: expected exactly transport.write(..), found {calls}")
-    calls = [m for m, _a, _k in _transport_calls(_find_func(_ST, cls, "send_all_from_iterable"))]
-    if calls == ["writelines"]:
-        rechecks = False
-    elif calls == ["writelines", "set_write_buffer_limits"]:
-        rechecks = _limits_zero(_ST, cls, "send_all_from_iterable")
-    else:
-        raise runner.TranslateError(f"{cls}.send_all_from_iterable: unrecognised transport calls {calls}")
-    for path, c, f in ((_DE, "DatagramEndpoint", "sendto"), (_DL, "DatagramListenerSocketAdapter", "send_to")):
-        calls = [m for m, _a, _k in _transport_calls(_find_func(path, c, f))]
-        if calls != ["sendto"]:
-            raise runner.TranslateError(f"{c}.{f}: expected exactly transport.sendto(..), found {calls}")
+    if _PARAMS is not None:
+        return _PARAMS
+    beh = behavioural_params()
     try:
-        import asyncio.selector_events as se
+        static = ast_params()
+        why = None
+    except _Outside as exc:
+        static, why = {}, str(exc)
+    prov = {}
+    for k, v in beh.items():
+        if k in static:
+            if static[k] != v:
+                raise runner.TranslateError(f"{k}: the source reads {static[k]} but the probe on the real object says {v}")
+            prov[k] = "ast+behavioural"
+        else:
+            prov[k] = "behavioural" + (f" (ast reader: {why})" if why else " (interpreter fact)" if k.startswith("interp") else "")
+    PROVENANCE = prov
+    _PARAMS = beh
+    return beh
 
-        interp = "_maybe_pause_protocol" in inspect.getsource(se._SelectorSocketTransport.writelines)
-    except (AttributeError, OSError, TypeError) as exc:
-        raise runner.TranslateError(f"cannot read the interpreter's writelines(): {exc}")
-    return dict(stream_limits_zero=stream_zero, stream_iter_rechecks=rechecks,
-                dgram_endpoint_limits_zero=_limits_zero(_DE, "DatagramEndpoint", "__init__"),
-                dgram_listener_limits_zero=_limits_zero(_DL, "DatagramListenerSocketAdapter", "__init__"),
-                interp_writelines_pauses=interp)
+
+PROVENANCE = {}
 
 
 def params():
@@ -655,7 +851,8 @@ def params():
         "dgram_listener_limits_zero": "DatagramListenerSocketAdapter.__init__ calls transport.set_write_buffer_limits(0)",
         "interp_writelines_pauses": "this interpreter's _SelectorSocketTransport.writelines() calls _maybe_pause_protocol()",
     }
-    return "".join(f"(* {doc[k]} *)\nDefinition {k} : bool := {'true' if v else 'false'}.\n" for k, v in p.items())
+    return "".join(f"(* {doc[k]}   [{PROVENANCE[k].split(' (')[0]}] *)\nDefinition {k} : bool := {'true' if v else 'false'}.\n"
+                   for k, v in p.items())
 
 
 # ------------------------------------------------------------------------------------------------ hypothesis check
@@ -690,6 +887,7 @@ def extra(ctx):
         if bool(config_of(K_SEND_ITER)[2]) != wl_src:
             ctx.problems.append(dict(kind="translator", detail="source-derived 'writelines path pauses' disagrees with the driver"))
         report["source_params"] = sp
+        report["source_params_provenance"] = dict(PROVENANCE)
     except Exception as exc:   # TranslateError is reported by the runner through params() already
         report["source_params"] = f"unavailable: {exc}"
     if broken:
